@@ -544,22 +544,6 @@ theorem msg_reset_spec {r : Msg} (hinv : MsgInv r) :
 
 /-! ### histories -/
 
-/-- The reference list after one operation of a history (typed string setters refuse a Uri-Path value over 255
-bytes; a refused path leaves the list as it is). -/
-def specStep (l : List Item) : Msg.Op → List Item
-  | .setBytes id v => Spec.SortedMultiset.set (id, v) l
-  | .addBytes id v => ins (id, v) l
-  | .setString id v => if id = uriPathId ∧ v.length > maxSegment then l else Spec.SortedMultiset.set (id, v) l
-  | .addString id v => if id = uriPathId ∧ v.length > maxSegment then l else ins (id, v) l
-  | .setUint32 id v => Spec.SortedMultiset.set (id, uintBytes v) l
-  | .addUint32 id v => ins (id, uintBytes v) l
-  | .setPath p => (Spec.SortedMultiset.setPath uriPathId p l).getD l
-  | .addQuery q => ins (uriQueryId, q) l
-  | .remove id => remove id l
-  | .resetTo inp => resetTo inp
-  | .resetSelf idxs => resetTo (Spec.SortedMultiset.selectOwn l idxs)
-  | .reset => []
-
 theorem selectOwn_map {β γ : Type} (f : β → γ) (l : List β) (idxs : List Nat) :
     (idxs.filterMap (fun i => l[i % l.length]?)).map f = idxs.filterMap (fun i => (l.map f)[i % (l.map f).length]?) := by
   induction idxs with
@@ -751,7 +735,7 @@ theorem step_spec (g : Nat → Nat) (gb : Nat → Nat → Nat) {r : Msg} (hinv :
 theorem run_spec (g : Nat → Nat) (gb : Nat → Nat → Nat) : ∀ (ops : List Msg.Op) {r : Msg}, MsgInv r →
     ∃ r', Msg.run g gb r ops = .ok r' ∧ MsgInv r' ∧
       items r'.mem r'.opts = ops.foldl specStep (items r.mem r.opts) ∧
-      (Msg.Op.reset ∉ ops → Keeps r.mem r.vb r'.mem r'.vb) := by
+      (Spec.OptionOp.Op.reset ∉ ops → Keeps r.mem r.vb r'.mem r'.vb) := by
   intro ops
   induction ops with
   | nil => intro r hinv; exact ⟨r, rfl, hinv, rfl, fun _ => Keeps.refl _ _⟩
@@ -764,7 +748,7 @@ theorem run_spec (g : Nat → Nat) (gb : Nat → Nat → Nat) : ∀ (ops : List 
     · rw [k3, h3]; rfl
     · intro hn
       have hop : op ≠ .reset := fun e => hn (by simp [e])
-      have hops : Msg.Op.reset ∉ ops := fun e => hn (by simp [e])
+      have hops : Spec.OptionOp.Op.reset ∉ ops := fun e => hn (by simp [e])
       exact (h4 hop).trans (k4 hops)
 
 /-- A freshly created message satisfies the invariant. -/
@@ -779,6 +763,137 @@ theorem msgInv_new (m : Mem) (optCap : Nat) : MsgInv (Msg.new m optCap) := by
   · show 0 + CoapVerif.Generated.OptionList.valueBufferSize ≤ _; rw [hsz]; omega
   · intro x hx; simp [Options.make, Options.toList] at hx
   · show 0 + CoapVerif.Generated.OptionList.valueBufferSize ≤ _; rw [hsz]; omega
+
+/-! ### `ResetOptionsTo` whose input is a slice of the receiver's own array -/
+
+/-- The aliased loop (reads `in[idx]` from the array the earlier `Add`s have been writing into) equals the plain loop
+on a snapshot of the input taken before the call: when iteration `j` starts, the `Add`s have touched only the indices
+`< j` of the array (`add_frame`), and it reads index `k + j ≥ j`. -/
+theorem resetLoopAliased_eq (g : Nat → Nat) (orig : List (Opt View)) (k : Nat) :
+    ∀ (cnt j : Nat) (m : Mem) (opts : Options View) (buf : Slice) (used : Nat),
+      WF opts → Sorted opts.toList → opts.len = j → opts.arr.length = orig.length →
+      (∀ i, j ≤ i → opts.arr[i]? = orig[i]?) → k + j + cnt ≤ orig.length →
+      Options.resetLoopAliased g cnt (k + j) m opts opts.arr buf used
+        = Options.resetLoop g ((orig.drop (k + j)).take cnt) m opts buf used := by
+  intro cnt
+  induction cnt with
+  | zero => intro j m opts buf used _ _ _ _ _ _; simp [Options.resetLoopAliased, Options.resetLoop]
+  | succ cnt ih =>
+    intro j m opts buf used hwf hs hj hlen hfr hle
+    have hrd : k + j < orig.length := by omega
+    have hsrc : opts.arr[k + j]? = some orig[k + j] := by
+      rw [hfr (k + j) (by omega)]; exact List.getElem?_eq_getElem hrd
+    have hdrop : (orig.drop (k + j)).take (cnt + 1) = orig[k + j] :: (orig.drop (k + j + 1)).take cnt := by
+      rw [List.drop_eq_getElem_cons hrd, List.take_succ_cons]
+    rw [hdrop]
+    unfold Options.resetLoopAliased Options.resetLoop
+    simp only [hsrc, bind, Except.bind, pure, Except.pure]
+    cases hA : buf.head (m.copyTo buf (m.read orig[k + j].2)) orig[k + j].2.len with
+    | error e => rfl
+    | ok v =>
+      simp only []
+      cases hB : opts.add g (orig[k + j].1, v) with
+      | error e => rfl
+      | ok opts' =>
+        simp only []
+        cases hC : buf.tail orig[k + j].2.len with
+        | error e => rfl
+        | ok buf' =>
+          simp only []
+          have hcap : opts.len < opts.arr.length := by omega
+          obtain ⟨f1, f2⟩ := add_frame g hwf hs _ hcap hB
+          obtain ⟨o'', a1, a2, a3, a4⟩ := add_spec g hwf hs (orig[k + j].1, v)
+          rw [hB] at a1; injection a1 with a1; subst a1
+          have hs' : Sorted opts'.toList := by rw [a4, ← ins_eq _ hs]; exact ins_sorted _ hs
+          simp only [hcap, if_true, decide_true]
+          have e : k + j + 1 = k + (j + 1) := by omega
+          rw [e]
+          exact ih (j + 1) _ opts' buf' _ a2 hs' (by omega) (by omega)
+            (fun i hi => by rw [f2 i (by omega), hfr i (by omega)]) (by omega)
+
+theorem take_drop_toList {o : Options View} {k n : Nat} (h : k + n ≤ o.len) :
+    (o.arr.drop k).take n = (o.toList.drop k).take n := by
+  unfold Options.toList
+  rw [List.drop_take, List.take_take]
+  congr 1; omega
+
+/-- `options.ResetOptionsTo(buf, options[k:k+n])` — the input aliasing the receiver's own array — behaves exactly like
+`ResetOptionsTo` on a private copy of those options. -/
+theorem resetOptionsToAliased_eq (g : Nat → Nat) (m : Mem) {o : Options View} (hwf : WF o) (buf : Slice) {k n : Nat}
+    (h : k + n ≤ o.len) :
+    Options.resetOptionsToAliased g m o buf k n = Options.resetOptionsTo g m o buf ((o.toList.drop k).take n) := by
+  have hwf' : o.len ≤ o.arr.length := hwf
+  unfold Options.resetOptionsToAliased Options.resetOptionsTo
+  have c : ¬ (k + n > o.arr.length) := by omega
+  simp only [c, if_false, CoapVerif.Generated.OptionListShape.resetChecksSizeBeforeOverwrite, if_true]
+  unfold Options.resetOptionsToChecked
+  rw [take_drop_toList h]
+  by_cases hs : buf.len < Options.totalLen ((o.toList.drop k).take n)
+  · simp only [hs, if_true]
+  · simp only [hs, if_false, Options.reslice, Nat.zero_le, if_true, bind, Except.bind]
+    have := resetLoopAliased_eq g o.arr k n 0 m ⟨o.arr, 0⟩ buf 0 (Nat.zero_le _) (by simp [Options.toList, Sorted]) rfl rfl
+      (fun _ _ => rfl) (by omega)
+    simp only [Nat.add_zero] at this
+    rw [this, take_drop_toList h]
+
+theorem resetLoop_err_none (g : Nat → Nat) : ∀ (inp : List (Opt View)) (m : Mem) (opts : Options View) (buf : Slice)
+    (used : Nat) (res : Res), Options.resetLoop g inp m opts buf used = .ok res → res.err = none := by
+  intro inp
+  induction inp with
+  | nil => intro m opts buf used res h; simp only [Options.resetLoop, pure, Except.pure, Except.ok.injEq] at h; rw [← h]
+  | cons x rest ih =>
+    intro m opts buf used res h
+    unfold Options.resetLoop at h
+    simp only [bind, Except.bind] at h
+    cases hA : buf.head (m.copyTo buf (m.read x.2)) x.2.len with
+    | error e => rw [hA] at h; cases h
+    | ok v =>
+      rw [hA] at h; simp only at h
+      cases hB : opts.add g (x.1, v) with
+      | error e => rw [hB] at h; cases h
+      | ok o' =>
+        rw [hB] at h; simp only at h
+        cases hC : buf.tail x.2.len with
+        | error e => rw [hC] at h; cases h
+        | ok b' => rw [hC] at h; exact ih _ _ _ _ _ h
+
+/-- `retry` only ever calls the wrapped method on the message's own option header. -/
+theorem retry_congr (gb : Nat → Nat → Nat) (r : Msg) {f f' : Mem → Options View → Slice → M Res}
+    (h1 : ∀ m b, f m r.opts b = f' m r.opts b)
+    (h2 : ∀ m b res, f' m r.opts b = .ok res → res.err = some Err.tooSmall → res.opts = r.opts) :
+    r.retry gb f = r.retry gb f' := by
+  unfold Msg.retry
+  rw [h1]
+  cases hf : f' r.mem r.opts r.vb with
+  | error e => rfl
+  | ok res =>
+    simp only [bind, Except.bind]
+    cases he : res.err with
+    | none => rfl
+    | some e =>
+      cases e with
+      | tooSmall =>
+        simp only []
+        rw [h2 _ _ _ hf he, h1]
+      | notFound => rfl
+      | invalidLen => rfl
+
+/-- `r.ResetOptionsTo(r.Options()[k:k+n])` on a pooled message = resetting it to a private copy of those options. -/
+theorem resetOptionsToOwnSlice_eq (g : Nat → Nat) (gb : Nat → Nat → Nat) {r : Msg} (hwf : WF r.opts) {k n : Nat}
+    (h : k + n ≤ r.opts.len) :
+    r.resetOptionsToOwnSlice g gb k n = r.resetOptionsTo g gb ((r.opts.toList.drop k).take n) := by
+  unfold Msg.resetOptionsToOwnSlice Msg.resetOptionsTo
+  apply retry_congr
+  · intro m b; exact resetOptionsToAliased_eq g m hwf b h
+  · intro m b res hr he
+    unfold Options.resetOptionsTo at hr
+    simp only [CoapVerif.Generated.OptionListShape.resetChecksSizeBeforeOverwrite, if_true] at hr
+    unfold Options.resetOptionsToChecked at hr
+    by_cases hs : b.len < Options.totalLen ((r.opts.toList.drop k).take n)
+    · simp only [hs, if_true, pure, Except.pure, Except.ok.injEq] at hr; rw [← hr]
+    · simp only [hs, if_false, Options.reslice, Nat.zero_le, if_true, bind, Except.bind] at hr
+      have := resetLoop_err_none g _ _ _ _ _ _ hr
+      rw [this] at he; cases he
 
 /-! ### `Options.Clone` -/
 
